@@ -1,10 +1,10 @@
 """C12 — class groups are evaluated independently and completely."""
 from __future__ import annotations
 import numpy as np
-import impl, gen, evalutil as E
+import forms, impl, gen, evalutil as E
 from props.c10 import summ_equal
 
-RULE = ("merge groups that are also single-instance groups; groups whose label list has a non-ascending set-iteration order with foreign labels in between; groups with 10-32 widely spread labels on uint32 maps; signed semantic input with negative labels (must be rejected); label-map pairs with 2-6 semantic/instance labels, labels of different groups adjacent and overlapping, arrays "
+RULE = ("undefined labels on one side with the maps given as views of one buffer / read-only / subclass, and in a child interpreter started with -O; merge groups that are also single-instance groups; groups whose label list has a non-ascending set-iteration order with foreign labels in between; groups with 10-32 widely spread labels on uint32 maps; signed semantic input with negative labels (must be rejected); label-map pairs with 2-6 semantic/instance labels, labels of different groups adjacent and overlapping, arrays "
         "with and without background x random partitions of the label set into 1-4 named groups (plain, merge, "
         "single-instance; names with upper case, spaces, '-', '_') x labels outside every group (must be rejected) x "
         "input types x decision metric; each group's result compared with an ungrouped evaluation of the restricted "
@@ -234,8 +234,56 @@ def corpus(ctx):
         one_case(ctx, pred, ref, E.mk_cfg(it, ["IOU", "DSC"], matcher=E.naive("IOU", (1, 2)) if it != "MATCHED" else None), gs, "corpus.single-next-to-others")
 
 
+def rejection_form_cases(ctx, n):
+    """an undefined label in one map only, the two maps given as views of one buffer / read-only / subclass; and the
+    same submissions in a child interpreter started with -O: the input must be rejected all the same"""
+    rng = ctx.rng
+    tasks, meta = [], []
+    for i in range(n):
+        pred, ref, labels = gen_case(rng)
+        groups = rand_groups(rng, labels)
+        defined = sorted(l for g in groups for l in g["labels"])
+        stray = max(labels) + rng.randint(1, 4)
+        side = rng.choice(["pred", "ref"])
+        tgt = (pred if side == "pred" else ref)
+        tgt[tuple(rng.randrange(n2) for n2 in tgt.shape)] = stray
+        other = ref if side == "pred" else pred
+        other[other == stray] = 0
+        cfg = E.mk_cfg(rng.choice(["MATCHED", "UNMATCHED", "SEMANTIC"]), ["IOU", "DSC"], matcher=E.naive("IOU", (1, 2)))
+        if cfg["input"] == "MATCHED":
+            cfg["matcher"] = None
+        inp0 = {"shape": list(pred.shape), "dtype": str(pred.dtype), "pred": gen.arr_json(pred), "ref": gen.arr_json(ref), "cfg": cfg, "groups": groups,
+                "stray": [side, stray], "src": f"rejform{i}"}
+        for name, p2, r2 in forms.pair_forms(pred, ref, which=[rng.choice(["channels_last", "even_odd", "window", "readonly", "subclass"])]):
+            inp = dict(inp0)
+            inp["form"] = name
+            ctx.case(inp, True)
+            ctx.count("rejection.form." + name)
+            res = E.run_impl(cfg, p2, r2, groups=groups)
+            if res != "ERR:AssertionError":
+                ctx.violation(f"label {stray} (in the {side} map only) belongs to no group, but the input given as {name.replace('_', ' ')} was not rejected", inp,
+                              impl=str(res)[:200], key={"kind": "undefined-accepted"})
+        if len(tasks) < (12 if ctx.quick else 60):
+            j = lambda a: {"data": gen.arr_json(a), "dtype": str(a.dtype), "shape": list(a.shape)}
+            tasks.append({"kind": "evaluate", "cfg": cfg, "pred": j(pred), "ref": j(ref), "groups": groups})
+            meta.append(inp0)
+    res = forms.run_child([{"kind": "info"}] + tasks, optimize=True)
+    if isinstance(res, dict) or not isinstance(res[0], dict) or res[0].get("debug") is not False:
+        ctx.notes.append("child interpreter with -O could not be started: " + str(res)[:200])
+        return
+    for inp0, out in zip(meta, res[1:]):
+        inp = dict(inp0)
+        inp["mode"] = "python -O"
+        ctx.case(inp, True)
+        ctx.count("rejection.python_-O")
+        if out != "ERR:AssertionError":
+            ctx.violation(f"label {inp0['stray'][1]} belongs to no group, but in an interpreter started with -O the input was not rejected", inp,
+                          impl=str(out)[:200], key={"kind": "undefined-accepted"})
+
+
 def run(ctx):
     corpus(ctx)
+    rejection_form_cases(ctx, ctx.scale(60, 600))
     run_cases(ctx, ctx.scale(450, 4500), "rand")
 
 
@@ -244,6 +292,9 @@ def search(ctx):
 
 
 def replay(ctx, rec):
+    if rec["input"].get("stray"):
+        rejection_form_cases(ctx, 80)
+        return
     i = rec["input"]
     dt = np.dtype(i.get("dtype", "uint8"))
     one_case(ctx, np.array(i["pred"], dtype=dt).reshape(i["shape"]), np.array(i["ref"], dtype=dt).reshape(i["shape"]),
